@@ -141,9 +141,10 @@ func (g *GlobalTransactionManager) Rollback(ctx context.Context, gtr *GlobalTran
 		bf.Wait()
 	}
 
-	if err != nil && bf.Err() != nil {
-		lastErr := errors.Wrap(err, bf.Err().Error())
-		log.Errorf("GlobalRollbackRequest rollback failed, xid %s, error %v", gtr.Xid, lastErr)
+	if err != nil || res == nil {
+		// no response arrived: either every attempt failed or none was made (e.g. the context is already done)
+		lastErr := errors.Errorf("GlobalRollbackRequest rollback failed, xid %s, error %v, backoff %v", gtr.Xid, err, bf.Err())
+		log.Errorf("%v", lastErr)
 		return lastErr
 	}
 
